@@ -187,10 +187,13 @@ pub fn gen_cli(t: &mut Tape) -> Cli {
             1 => Some(t.pick(VALID_SPECS).to_string()),
             _ => Some(t.pick(INVALID_SPECS).to_string()),
         };
-        let (out, print) = match t.weighted(&[5, 3, 2]) {
+        // v2: a group may carry both -o and -p (the usage text: -p prints INSTEAD of writing a file)
+        let w: [u32; 4] = if crate::engine::gen_version() >= 2 { [5, 3, 2, 1] } else { [5, 3, 2, 0] };
+        let (out, print) = match t.weighted(&w) {
             0 => (Some(format!("out{}.dat", g)), false),
             1 => (None, false),
-            _ => (None, true),
+            2 => (None, true),
+            _ => (Some(format!("out{}.dat", g)), true),
         };
         groups.push(Group { spec, out, print });
     }
@@ -221,6 +224,10 @@ pub fn gen_cli(t: &mut Tape) -> Cli {
                 }
             }
         }
+        let print_first = g.print && g.out.is_some() && t.flip();
+        if print_first {
+            a.push(if t.flip() { "-p".into() } else { "--print".into() });
+        }
         if let Some(o) = &g.out {
             if t.flip() {
                 a.push("-o".into());
@@ -229,7 +236,7 @@ pub fn gen_cli(t: &mut Tape) -> Cli {
                 a.push(format!("--output={}", o));
             }
         }
-        if g.print {
+        if g.print && !print_first {
             a.push(if t.flip() { "-p".into() } else { "--print".into() });
         }
         per_group.push(a);
@@ -358,7 +365,7 @@ impl Property for C18 {
     fn rule(&self) -> String {
         "each case = one of four small programs (plain, one needing 3 passes, a faulty one, one steered by a define) under an input name with/without extension and directory (incl. names that \
          equal a derived output name) x 1-4 output groups, each with a format spec drawn from every format and parameter of the usage text (valid; or invalid: unknown name, unknown parameter, value \
-         outside the documented set, malformed) or none, and -o / derived name / -p; global options (-q, -t/--iters incl. 0/x/-1, -d, -h, -v) placed in a random group at a random position, every \
+         outside the documented set, malformed) or none, and -o / derived name / -p / both -o and -p (printing wins); global options (-q, -t/--iters incl. 0/x/-1, -d, -h, -v) placed in a random group at a random position, every \
          option in one of its spellings (-f X, -fX, --format=X, --format X, -o X, --output=X, -t N, -tN, --iters=N, -dN=V, --define N=V, --define=N=V). Oracle R-CLI: the format table is parsed from \
          src/usage_help.md at run time; a line the usage text does not allow must be rejected before assembling (also on the faulty program: no located error may be reported); otherwise the files \
          written must be exactly the model's list (given or derived names) with, per group, the content that driver::format_output gives for the format and parameters the usage text documents \
@@ -376,7 +383,7 @@ impl Property for C18 {
         40_000
     }
     fn random_cases(&self, tier: Tier) -> u64 {
-        tier.pick(40_000, 600_000)
+        tier.pick(600_000, 3_000_000)
     }
     fn run(&self, t: &mut Tape, ctx: &mut CaseCtx) -> Verdict {
         static DOCS: std::sync::OnceLock<Vec<FormatDoc>> = std::sync::OnceLock::new();
